@@ -34,12 +34,14 @@ TIERS = {
     "quick": {"shards": 4, "cases": 3000, "timeout": 300},
     "thorough": {"shards": 16, "cases": 9000, "timeout": 3000},
 }
-FLOORS = {"quick": {"distinct_nontrivial": 1200, "included_at_entries_observed": 3000,
+FLOORS = {"quick": {"component_builds_inside_one_long_bump": 1500,
+                    "distinct_nontrivial": 1200, "included_at_entries_observed": 3000,
                     "component_build_x_parent_branch_decisions": 5000, "dependency_graphs": 1000,
                     "cyclic_graphs_rejected": 300, "parent_builds_reported_without_own_commit": 100,
                     "components_with_an_unreadable_first_version_location": 100,
                     "scenarios_with_refs_read_from_git_directories": 100},
-          "thorough": {"distinct_nontrivial": 25000, "included_at_entries_observed": 100000,
+          "thorough": {"component_builds_inside_one_long_bump": 1500,
+                       "distinct_nontrivial": 25000, "included_at_entries_observed": 100000,
                        "component_build_x_parent_branch_decisions": 200000, "dependency_graphs": 40000,
                        "cyclic_graphs_rejected": 10000, "parent_builds_reported_without_own_commit": 4000,
                        "components_with_an_unreadable_first_version_location": 3000,
